@@ -66,7 +66,8 @@ fn rnd_list(rng: &mut Rng, max: u64, depth: u32) -> J {
 }
 
 fn rnd_num_list(rng: &mut Rng, max: u64) -> J {
-  let n = rng.below(max + 1);
+  // one list in five is long (17 to 48 items: beyond the sizes at which sorting and selection routines switch strategy)
+  let n = if rng.chance(1, 5) { 17 + rng.below(32) } else { rng.below(max + 1) };
   json!({"k": "list", "items": (0..n).map(|_| if rng.chance(1, 15) { json!({"k": "null"}) } else { rnd_num(rng) }).collect::<Vec<_>>()})
 }
 
@@ -255,6 +256,20 @@ pub fn check(mut ctx: Ctx, replay: Option<J>) -> ! {
     for _ in 0..n_random {
       recs.push(run_case(&random_case(&mut rng)));
     }
+    // long shuffled lists of distinct numbers for the order-dependent aggregates (a selection or sorting routine that
+    // changes strategy with the size of its input is exercised on every size from 17 to 48, in many orders)
+    let n_long = if quick { 600 } else { 6000 };
+    for k in 0..n_long {
+      let n = 17 + (k % 32);
+      let mut items: Vec<i64> = (1..=n as i64).map(|i| i * 10 - 5 * (i % 2)).collect();
+      for i in (1..items.len()).rev() {
+        items.swap(i, rng.below(i as u64 + 1) as usize);
+      }
+      let list = json!({"k": "list", "items": items.iter().map(|m| json!({"k": "num", "m": m, "e": 0})).collect::<Vec<_>>()});
+      let f = ["median", "median", "median", "min", "max", "mode", "sort"][k % 7];
+      recs.push(run_case(&if f == "sort" { json!({"fn": "sort", "args": [list, {"k": "null"}], "cmp": if k % 2 == 0 { "lt" } else { "ge" }}) } else { json!({"fn": f, "args": [list]}) }));
+    }
+    ctx.cov("long_shuffled_lists", json!(n_long));
     ctx.cov("random_argument_tuples", json!(n_random));
     let mut bad = recs.iter().find(|r| r["fn"] == "string length" && r["pos"]["k"] == "num").cloned().unwrap_or_else(|| tool_error("no case"));
     bad["pos"]["m"] = json!(77);
